@@ -341,6 +341,26 @@ def curated_calls(obj, rng, nodes_by_type):
         e = pick("Array2D")
         if e:
             out.append({"t": "fn", "name": "preprocess.data_eps_with_poisson_noise_added", "kw": {"data_eps": {"$abs": {"$self": True}}, "exposure_time_map": {"$const_like": [{"$self": True}, 300.0]}, "seed": seed}})
+    if tn in ("Overlay", "Hilbert", "KMeans"):
+        m = pick("Mask2D")
+        a = pick("Array2D")
+        if m:
+            out.append({"t": "call", "name": "image_plane_mesh_grid_from", "kw": {"mask": {"$node": m}, "adapt_data": {"$node": a} if a else None}})
+            out.append({"t": "call", "name": "image_plane_mesh_grid_from", "kw": {"mask": {"$node": m}, "adapt_data": {"$abs": {"$node": a}} if a else None}})
+    if tn == "TransformerDFT":
+        a = pick("Array2D")
+        v = pick("Visibilities")
+        if a:
+            out.append({"t": "call", "name": "visibilities_from", "kw": {"image": {"$node": a}}})
+        if v:
+            out.append({"t": "call", "name": "image_from", "kw": {"visibilities": {"$node": v}}})
+        try:
+            npix = int(obj.real_space_mask.pixels_in_mask)
+        except Exception:  # noqa: BLE001
+            npix = 0
+        if npix:
+            cols = rng.randrange(1, 4)
+            out.append({"t": "call", "name": "transform_mapping_matrix", "kw": {"mapping_matrix": {"$arr": [prng.fhex(rng.uniform(0, 1)) for _ in range(npix * cols)], "shape": [npix, cols]}}})
     if tn in ("CoordinateArrayTriangles", "ArrayTriangles"):
         out.append({"t": "call", "name": "containing_indices", "kw": {"shape": {"$shape": ["Circle", rng.uniform(-1, 1), rng.uniform(-1, 1), rng.choice([0.3, 1.0, 2.5])]}}})
     if tn == "Preloads":
@@ -364,7 +384,7 @@ def curated_calls(obj, rng, nodes_by_type):
         if getattr(obj, "regularization", None) is not None:
             out.append({"t": "call", "name": "regularization.regularization_matrix_from", "kw": {"linear_obj": {"$self": True}}})
             out.append({"t": "call", "name": "regularization.regularization_weights_from", "kw": {"linear_obj": {"$self": True}}})
-    if tn in ("InversionImagingMapping", "InversionImagingWTilde"):
+    if tn in ("InversionImagingMapping", "InversionImagingWTilde", "InversionInterferometerMapping"):
         nobj = len(getattr(obj, "linear_obj_list", []))
         if nobj:
             out.append({"t": "call", "name": "regularization_weights_from", "kw": {"index": rng.randrange(nobj)}})
@@ -464,6 +484,10 @@ def derivations(obj, rng, nodes_by_type):
         out.append({"t": "call", "name": "apply_over_sampling", "kw": {"over_sampling": {"$over_dataset": {"uniform": rng.randrange(1, 3), "pixelization": rng.randrange(1, 3)}}}})
         for p in ("grids", "convolver", "w_tilde", "data", "noise_map", "psf", "mask"):
             out.append({"t": "prop", "name": p})
+    if tn == "Interferometer":
+        out.append({"t": "call", "name": "apply_over_sampling", "kw": {"over_sampling": {"$over_dataset": {"uniform": rng.randrange(1, 3), "pixelization": rng.randrange(1, 3)}}}})
+        for p in ("grids", "transformer", "data", "noise_map", "dirty_image", "dirty_noise_map"):
+            out.append({"t": "prop", "name": p})
     if tn == "GridsDataset":
         for p in ("uniform", "non_uniform", "pixelization", "blurring", "border_relocator"):
             out.append({"t": "prop", "name": p})
@@ -473,7 +497,7 @@ def derivations(obj, rng, nodes_by_type):
     if tn == "MapperGrids":
         for p in ("source_plane_data_grid", "source_plane_mesh_grid", "image_plane_mesh_grid", "adapt_data"):
             out.append({"t": "prop", "name": p})
-    if tn in ("InversionImagingMapping", "InversionImagingWTilde"):
+    if tn in ("InversionImagingMapping", "InversionImagingWTilde", "InversionInterferometerMapping"):
         for p in ("mapped_reconstructed_data", "mapped_reconstructed_image", "data", "noise_map"):
             out.append({"t": "prop", "name": p})
     if tn == "FitStub":
